@@ -355,7 +355,10 @@ fn cmd_check(a: &[String]) -> i32 {
     let _ = std::fs::create_dir_all(&args.replay_dir);
 
     // the job list
-    let base_runs = args.runs.unwrap_or(if args.thorough { 20_000 } else { 1_500 });
+    // properties whose receivers run the full round-trip battery on every accepted record cost about
+    // three times as much per run
+    let heavy = matches!(prop.as_str(), "C03" | "C04" | "C05" | "C12");
+    let base_runs = args.runs.unwrap_or(if args.thorough { if heavy { 8_000 } else { 20_000 } } else { 1_500 });
     let root = rng::derive(args.seed, &[fnv(&prop), fnv(flav)]);
     let mut jobs: Vec<Job> = (0..base_runs as u64).map(|i| Job::Seeded(rng::derive(root, &[i]))).collect();
     let n_seeded = jobs.len();
